@@ -120,6 +120,15 @@ func sortSites(fn *ssa.Function) (calls []ssa.CallInstruction, cmps []*ssa.Funct
 	return
 }
 
+// verifierSort: the list's sort method, or the verifying function itself when the sort is
+// written in place there.
+func verifierSort(p *Program, vac *ssa.Function) string {
+	if p.Fn("pkg/consensus.(*ValidatorsWithBLSKey).sort") == nil && sortClosure(vac) != nil {
+		return FuncKey(vac)
+	}
+	return "pkg/consensus.(*ValidatorsWithBLSKey).sort"
+}
+
 // aggregatorSort finds the key-pair sort method SingleCommits.Aggregate calls
 // before it fixes the aggregation-bit positions.
 func aggregatorSort(p *Program) string {
@@ -410,13 +419,24 @@ func runC06(c *Ctx) {
 				}
 			}
 			// the element sequence is sorted once, before the fill
-			srt := CallsIn(vac, "(*consensus.ValidatorsWithBLSKey).sort")
-			c.Require("C06.R3 keys-weights-aligned", FuncKey(vac)+": sorted before the fill", p.InstrPos(s.Call), "the validator sequence is sorted by BLS key before keys/weights are derived", len(srt) == 1 && instrDominates(srt[0].Call, s.Call), "")
+			// (through the list's own sort method, or a comparator sort on the BLS key written in place)
+			var srt []ssa.CallInstruction
+			for _, cs := range CallsIn(vac, "(*consensus.ValidatorsWithBLSKey).sort") {
+				srt = append(srt, cs.Call)
+			}
+			if calls, cmps := sortSites(vac); p.Fn("pkg/consensus.(*ValidatorsWithBLSKey).sort") == nil {
+				for i, call := range calls {
+					if _, key, ok := sortDirection(cmps[i]); ok && strings.Contains(key, "BLSKey") && call.Parent() == vac {
+						srt = append(srt, call)
+					}
+				}
+			}
+			c.Require("C06.R3 keys-weights-aligned", FuncKey(vac)+": sorted before the fill", p.InstrPos(s.Call), "the validator sequence is sorted by BLS key before keys/weights are derived", len(srt) == 1 && instrDominates(srt[0], s.Call), "")
 		}
 		// comparator agreement
 		type cmpSite struct{ name, fn string }
 		sites := []cmpSite{
-			{"verifier (ValidatorsWithBLSKey.sort)", "pkg/consensus.(*ValidatorsWithBLSKey).sort"},
+			{"verifier (ValidatorsWithBLSKey.sort)", verifierSort(p, vac)},
 			{"aggregator (sort used by SingleCommits.Aggregate)", aggregatorSort(p)},
 			{"validators hash (ComputeValidatorsHash)", "pkg/consensus/validator.ComputeValidatorsHash"},
 		}
@@ -512,7 +532,7 @@ func runC06(c *Ctx) {
 	{
 		msgOf := func(fn *ssa.Function, callee string, argIdx int) string {
 			for _, s := range CallsIn(fn, callee) {
-				t := T(s.Call.Common().Args[argIdx])
+				t := T(ArgK(s.Call, argIdx))
 				// name the chain-id parameter by its declared name, not its position
 				chain := ""
 				t.Walk(func(x *Term) bool {
